@@ -570,7 +570,20 @@ package badger
 //@   props C30
 //@   requires seq.db != nil
 //@   ensures[failed-lease-changes-nothing] result != nil ==> seq.next == old(seq.next) && seq.leased == old(seq.leased)
+//@   assert[lease-adopted] before return : result == nil ==> seq.next == next && seq.leased == lease
 //@   assigns everything
+
+// The transaction that renews the lease stores the stored value (or 0) plus the bandwidth, as
+// eight big-endian bytes under the sequence's key; numbers are then handed out from the old
+// stored value upwards.
+//@ func (*Sequence).updateLease.$1
+//@   props C30
+//@   light
+//@   assert[read-own-key] before call Get : arg0 == txn && arg1 == seq.key
+//@   assert[lease-is-next-plus-bandwidth] before call PutUint64 : arg2 == lease && lease == next + seq.bandwidth
+//@   assert[stored-under-own-key] before call NewEntry : arg0 == seq.key && len(arg1) == 8
+//@   assert[stored-in-this-txn] before call SetEntry : arg0 == txn && arg1 == ret(NewEntry#1)
+//@   assert[starts-at-zero] before call PutUint64 : called(Get#1) && ret1(Get#1) == ErrKeyNotFound ==> next == 0
 
 //@ func (*Sequence).Next
 //@   props C30
